@@ -36,6 +36,9 @@ double SignedArea2(const SimplePolygon& p) {
 // star polygon about c with radii in [r0,r1]; inscribed radius >= r0*cos(pi*(1+j)/n)
 SimplePolygon Star(Tape& t, vec2 c, int n, double r0, double r1, double jitter) {
   SimplePolygon p(n);
+  // star-shaped about c (hence simple and counter-clockwise) needs every angular gap < 180 degrees:
+  // (1 + jitter) * 360 / n < 180
+  jitter = std::min(jitter, 0.9 * (n / 2.0 - 1.0));
   for (int i = 0; i < n; ++i) {
     double r = t.real(r0, r1);
     double a = 2 * M_PI * (i + 0.5 - jitter / 2 + jitter * t.unit()) / n;
@@ -281,6 +284,7 @@ void Body(Tape& t, Outcome& o) {
       int c2 = 0;
       for (auto& p : ps.polys) { SimplePolygonIdx q; for (auto& v : p) q.push_back({v, c2++}); plain.push_back(q); }
     }
+    if (getenv("VERIF_DEBUG")) { for (auto& p : ps.polys) { fprintf(stderr, "POLY {"); for (auto& v : p) fprintf(stderr, "{%.17g,%.17g},", v.x, v.y); fprintf(stderr, "}\n"); } fprintf(stderr, "EPS %.17g\n", eps); }
     Check chk{o};
     for (bool allowConvex : {true, false}) {
       std::vector<ivec3> t1 = Triangulate(ps.polys, eps, allowConvex);
